@@ -397,6 +397,14 @@ class Machine:
             self.cell_by_obj.setdefault(id(d), m.cells[i] if i < len(m.cells) else cell_of(d))
             self.keep.append(d)
         m.dtype = getattr(em, "dtype", None)
+        # a copy, slice or sum is a NEW collection of its own members ("typed slicing and
+        # concatenation"): if it declares a data layout at all, that layout is one its members
+        # have — not one it merely inherited from the source it was cut from
+        if m.cells and m.dtype is not None and \
+                _lay(np.dtype(m.dtype)) not in {_lay(c.rec) for c in m.cells}:
+            self.viol("C20.O6", f"{op}: the result declares the data layout {np.dtype(m.dtype)} "
+                      f"which none of its {len(m.cells)} members has", op=op,
+                      kind="foreign_layout")
         self.em_by_obj[id(em)] = m
         self.keep.append(em)
         return m
